@@ -3,3 +3,33 @@ package props
 import "wpverif/internal/core"
 
 func coreScratch(e *Env) *core.Report { return core.NewReport(e.R.Prop, e.R.Tier) }
+
+// firstOf evaluates alternative formulations of one requirement, each in a
+// scratch report, and records the obligations of the first alternative that
+// is fully discharged (equivalent code shapes: a check inside the loop under
+// i == 0, or on element 0 in front of a loop that starts at 1).  If none is,
+// the first alternative's obligations are recorded, with its failures.
+func firstOf(e *Env, alts ...func(e *Env)) {
+	var firstRep *core.Report
+	for _, alt := range alts {
+		e2 := *e
+		e2.R = coreScratch(e)
+		alt(&e2)
+		if firstRep == nil {
+			firstRep = e2.R
+		}
+		ok := len(e2.R.Obls) > 0
+		for _, o := range e2.R.Obls {
+			if o.Status != core.Discharged {
+				ok = false
+			}
+		}
+		if ok {
+			e.R.Obls = append(e.R.Obls, e2.R.Obls...)
+			return
+		}
+	}
+	if firstRep != nil {
+		e.R.Obls = append(e.R.Obls, firstRep.Obls...)
+	}
+}
